@@ -335,8 +335,11 @@ func (u *Unit) leaves(t types.Type) []leaf {
 			}
 			return
 		}
-		if _, ok := isSliceT(t); ok {
+		if sl, ok := isSliceT(t); ok {
 			out = append(out, leaf{prefix + "#arr", SRef, t}, leaf{prefix + "#len", SInt, t})
+			if ss := u.setSortOf(sl.Elem()); ss != "" {
+				out = append(out, leaf{prefix + "#set", ss, t})
+			}
 			return
 		}
 		if _, ok := isArrayT(t); ok {
@@ -384,6 +387,11 @@ func (u *Unit) build(t types.Type, prefix string, rd func(path string, s Sort, t
 		v := Value{K: vSlice, Typ: t, Comp: map[string]Value{}}
 		v.Comp["#arr"] = scalar(rd(prefix+"#arr", SRef, t), SRef, nil)
 		v.Comp["#len"] = scalar(rd(prefix+"#len", SInt, t), SInt, types.Typ[types.Int])
+		if sl, ok := isSliceT(t); ok {
+			if ss := u.setSortOf(sl.Elem()); ss != "" {
+				v.Comp["#set"] = Value{K: vScalar, T: rd(prefix+"#set", ss, t), S: ss}
+			}
+		}
 		return v
 	}
 	s := u.sortOf(t)
@@ -405,6 +413,9 @@ func walkValue(v Value, prefix string, f func(path string, leafV Value)) {
 	case vSlice:
 		f(prefix+"#arr", v.Comp["#arr"])
 		f(prefix+"#len", v.Comp["#len"])
+		if sv, ok := v.Comp["#set"]; ok {
+			f(prefix+"#set", sv)
+		}
 	default:
 		f(strings.TrimSuffix(prefix, "."), v)
 	}
@@ -415,4 +426,34 @@ func quote(s string) string {
 		s = strings.NewReplacer(" ", "_", "|", "_", "\\", "_").Replace(s)
 	}
 	return "|" + s + "|"
+}
+
+// setSortOf: slices of scalar elements carry a ghost set view "#set" (the set of their elements) in the slice header.
+// It is maintained by make, literals, append and reslicing; element reads add membership facts. Element writes through an
+// index are not reflected (a unit that both writes elements and uses has() in its contracts is outside the subset).
+func (u *Unit) setSortOf(elem types.Type) Sort {
+	s := u.sortOf(elem)
+	if s == "" || s == SFP {
+		return ""
+	}
+	return arraySort(s, SBool)
+}
+
+func (u *Unit) emptySet(ss Sort) string { return fmt.Sprintf("((as const %s) false)", ss) }
+
+// withSet attaches a set view to a freshly built slice value.
+func (u *Unit) withSet(v Value, set string) Value {
+	sl, ok := isSliceT(v.Typ)
+	if !ok {
+		return v
+	}
+	ss := u.setSortOf(sl.Elem())
+	if ss == "" {
+		return v
+	}
+	if set == "" {
+		set = u.fresh("set", ss)
+	}
+	v.Comp["#set"] = Value{K: vScalar, T: set, S: ss}
+	return v
 }
